@@ -69,6 +69,9 @@ pub fn oracle(case: &SpCase, res: &SpResult) -> (Option<(String, String)>, Vec<&
     // SACK evidence in any episode: `busy_until` = highest seq sent when a recovery episode (or a timeout) may have
     // started; until the cumulative ack reaches it the endpoint may legitimately ignore further evidence
     let mut busy_until: Option<i32> = None;
+    // highest seq sent when a retransmission left at an instant at which the timer may have expired together with a
+    // peer packet (K2): until it is acknowledged, resends are attributed to that possible timeout
+    let mut gbn_until: Option<i32> = None;
     // the peer has been honest so far: never acknowledged (cumulatively or selectively) a packet that was not sent,
     // never moved its ack backwards. Only then is the endpoint's recovery state predictable from outside.
     let mut honest = true;
@@ -95,7 +98,11 @@ pub fn oracle(case: &SpCase, res: &SpResult) -> (Option<(String, String)>, Vec<&
                 last_rx_t = Some(r.t_us);
                 chain = None; // something was delivered to the endpoint: the quiet interval ends
                 if p.last_ext(1).is_some() { sack_processed = true; }
+                // (an episode that this very packet ends was still in progress when the packet arrived: evidence it carries
+                // is not "outside an episode")
+                let episode_ended_by_this_packet = busy_until.is_some_and(|b| obs.st.cum >= b);
                 if busy_until.is_some_and(|b| obs.st.cum >= b) { busy_until = None; }
+                if gbn_until.is_some_and(|b| obs.st.cum >= b) { gbn_until = None; }
                 if obs.st.cum > cum_before { t_arm_next = Some(r.t_us); }
                 // one SACK naming >= 3 packets this endpoint really sent, beyond a missing one that it sent too:
                 // "equivalent selective-ACK evidence" — outside an episode the missing packet is retransmitted at once
@@ -104,7 +111,7 @@ pub fn oracle(case: &SpCase, res: &SpResult) -> (Option<(String, String)>, Vec<&
                     let missing = obs.st.cum + 1;
                     let evidence = held.len() >= 3 && obs.rel(p.ack) == obs.st.cum && obs.segs.contains_key(&missing) && !obs.st.sacked.contains(&missing);
                     if evidence {
-                        if honest && busy_until.is_none() && obs.prev.sack_streak == 0 && obs.prev.dup_count == 0 {
+                        if honest && busy_until.is_none() && !episode_ended_by_this_packet && obs.prev.sack_streak == 0 && obs.prev.dup_count == 0 {
                             let ok = res.log.iter().any(|x| x.src == sock && x.t_us == r.t_us && x.idx > r.idx && x.pkt.as_ref().is_some_and(|q| q.ptype == refparse::ST_DATA && obs.rel(q.seq) == missing));
                             if !ok {
                                 viol!("fast-retransmit-missing", "log #{}: a selective ack delivered at t={} us reports {} packets held beyond the missing seq {} while no recovery episode or timeout is in progress (everything sent before the last episode is acknowledged), but seq {} was not retransmitted at that instant", r.idx, r.t_us, held.len(), first.wrapping_add(missing as u16), first.wrapping_add(missing as u16));
@@ -243,7 +250,13 @@ pub fn oracle(case: &SpCase, res: &SpResult) -> (Option<(String, String)>, Vec<&
                         // (a peer packet may fall on the very instant the retransmission timer expires; the timer is
                         // armed by sends and advancing acks and runs for at least 200 ms)
                         let timer_possible = t_arm_latest.is_some_and(|a| r.t_us >= a + MIN_RTO_US);
-                        if let Some((a, _, n, ck, _)) = canon.filter(|_| !timer_possible) {
+                        // … and if it was the timer, everything sent so far is resent as acknowledgements come in
+                        // (go-back-N after a timeout): those resends are not fast retransmissions either
+                        if timer_possible {
+                            gbn_until = Some(gbn_until.map_or(obs.highest, |b: i32| b.max(obs.highest)));
+                            busy_until = Some(busy_until.map_or(obs.highest, |b| b.max(obs.highest)));
+                        }
+                        if let Some((a, _, n, ck, _)) = canon.filter(|_| !timer_possible && !gbn_until.is_some_and(|h| k <= h)) {
                             if n < 3 && ck == k && !ambiguous_is_third(n) {
                                 viol!("fast-retransmit-too-early", "log #{}: seq {} retransmitted after only {} duplicate(s) of ack_nr {} and no SACK (three are required)", r.idx, p.seq, n, a);
                             }
